@@ -241,7 +241,7 @@ def outputs(ctx):
     from spyne.server.wsgi import WsgiApplication
     from .. import valcases as V, gen as G, schemaworld as W
     d = V.export(ctx, 'base')          # (the dense thorough grids of C05 are about soft validation: the schema side keeps the base table)
-    cases = [c for c in d['cases'] if c['valid'] and c['group'] != 'zone'] + d['outcases']      # (zone: see the note at the validators' comparison)
+    cases = [c for c in d['cases'] if c['valid'] and c['group'] not in ('zone', 'nbound')] + d['outcases']      # (zone: see the note at the validators' comparison)
     fams = ('xml',) if ctx.quick else ('xml', 'soap11', 'soap12')
     apps = {}
     wd = os.path.join(ctx.work, 'xsdo')
@@ -377,7 +377,7 @@ def run(ctx):
                           positions=('arg', 'field', 'array', 'attr') if ctx.quick else None)
     # (zone-less literals of a type with a declared zone: XML Schema orders values with and without a zone only partially - whether
     #  such a literal satisfies a bound that carries a zone is not decided by the schema; soft validation alone is judged there, C05)
-    recs = [r for r in recs if r['case']['group'] != 'zone']
+    recs = [r for r in recs if r['case']['group'] not in ('zone', 'nbound')]
     fails = c05.judge(ctx, recs, schema=True)
     nf = 0
     for i, cl in sorted(fails.items()):
